@@ -43,7 +43,7 @@ theorem simplify_spec (prime : Nat → Nat) (hp : ∀ n, n < prime n) (D : LV) (
 theorem iterLatents_total (D : LV) (hw : D.WF) (ha : D.Acyclic) : ∃ ls, D.iterLatents = .ok ls := by
   have hwG : D.asMG.WF :=
     ⟨hw.nodes_nodup, hw.edges_nodup, hw.edge_mem, by intro e he; simp [asMG] at he⟩
-  obtain ⟨o, ho⟩ := MG.topologicalSort_total D.asMG hwG ha
+  obtain ⟨o, ho⟩ := MG.topologicalSort_ok_of_acyclic D.asMG hwG ha
   unfold iterLatents
   simp only [ho, hw.tagged, bind, Except.bind, pure, Except.pure]
   simp
